@@ -54,7 +54,7 @@ class TokenParser(Parser):
     def _tokencollection() -> TokenCollection:
         TOK = TokenCollection()
         TOK.add(r"#\[(?P<values>[^\]]+)\](?=\s*)", "CONFIG_FLAG")
-        TOK.add(r"#define\s+(?P<name>[^\s]+)\s+(?P<value>[^\r\n]+)\s*", "DEFINE")
+        TOK.add(r"#define\s+(?P<name>[^\s]+)(?:[ \t]+(?P<value>[^\r\n]+))?\s*", "DEFINE")
         TOK.add(r"typedef(?=\s)", "TYPEDEF")
         TOK.add(r"(?:struct|union)(?=\s|{)", "STRUCT")
         TOK.add(
@@ -84,9 +84,10 @@ class TokenParser(Parser):
         pattern = self.TOK.patterns[self.TOK.DEFINE]
         match = pattern.match(const.value).groupdict()
 
-        value = match["value"]
+        # A define without a value is an empty one, it doesn't take the next line for its value
+        value = (match["value"] or "").strip()
         try:
-            value = ast.literal_eval(value)
+            value = ast.literal_eval(value) if value else value
         except (ValueError, SyntaxError):
             # Not a literal (a quoted string is one and stays a string), maybe an expression
             try:
